@@ -124,10 +124,10 @@ func init() {
 			{Pkg: "bkl", Func: "HarnessC03_cycle", Tiers: "qt", Covers: []string{"cycle.checked"},
 				Bound: "$parent cycles of length 1, 2 and 3 between files of a virtual file system: must end in an error (no hang, no memory blow-up)"},
 			{Pkg: "bkl", Func: "HarnessC08_refs", Tiers: "qt", Covers: []string{"refs.cyclic", "refs.acyclic"},
-				Bound: "all reference graphs over three nodes (13^3 documents): each node a leaf or one reference ($merge key, $replace key, $merge: string, interpolation) to any node; every cycle outside region C08-K2 must be reported as an error"},
+				Bound: "all reference graphs over three nodes (13^3 documents): each node a leaf or one reference ($merge key, $replace key, $merge: string, interpolation) to any node; every cycle outside region C08-K2c (interpolation mixed with another reference form) must be reported as an error"},
 		},
 		Assume:  pipeAssume,
-		Outside: "byte-level robustness of the JSON/TOML/YAML parsers; the CLI fatal()/exit path; $parent cycles between files (see C03); legitimately large outputs ($repeat counts > 5); known finding C08-K2 (cycles through a map-key $merge, mixed interpolation cycles)",
+		Outside: "byte-level robustness of the JSON/TOML/YAML parsers; the CLI fatal()/exit path; $parent cycles between files (see C03); legitimately large outputs ($repeat counts > 5); known finding C08-K2c (cycles mixing interpolation with other reference forms)",
 	})
 	reg(propSpec{
 		ID: "C11",
